@@ -51,6 +51,13 @@ def applyOp (op : String) (ts : List String) : Option (Option (List MV)) :=
       let (idx, ts) ← pCounted pNat ts
       let (m, _) ← pMesh ts
       one (m.setIndices idx)
+  | "setattr" => do
+      let (w, ts) ← pNat ts
+      let (name, ts) ← pTok ts
+      let (n, ts) ← pNat ts
+      let (vals, ts) ← pMany (pMany pFloat w) n ts
+      let (m, _) ← pMesh ts
+      one (m.setAttr ⟨w, name⟩ vals)
   | "append" => do
       let (a, ts) ← pMesh ts
       let (b, _) ← pMesh ts
